@@ -125,7 +125,7 @@ func (c *c33Chain) ValidateRedemptionProposal(walletPublicKeyHash [20]byte, prop
 
 type c33Item struct {
 	key      string
-	order    int64  // reveal block / request time
+	order    int64 // reveal block / request time
 	eligible bool
 	why      string // why not eligible
 	render   string
@@ -662,9 +662,9 @@ type c33Proposal struct {
 }
 
 func (p *c33Proposal) ActionType() tbtc.WalletActionType { return p.action }
-func (p *c33Proposal) ValidityBlocks() uint64           { return 1 }
-func (p *c33Proposal) Marshal() ([]byte, error)         { return nil, nil }
-func (p *c33Proposal) Unmarshal([]byte) error           { return nil }
+func (p *c33Proposal) ValidityBlocks() uint64            { return 1 }
+func (p *c33Proposal) Marshal() ([]byte, error)          { return nil, nil }
+func (p *c33Proposal) Unmarshal([]byte) error            { return nil }
 
 type c33Task struct {
 	action  tbtc.WalletActionType
